@@ -98,7 +98,7 @@ Lin ==
   /\ \E o \in pend :
         /\ st' \in Apply(o, st)
         /\ pend' = pend \ {o}
-        /\ removed' = IF o.op = "Delete" /\ st # Absent THEN removed + 1 ELSE removed
+        /\ removed' = IF o.op \in {"Delete", "DeleteAll"} /\ st # Absent THEN removed + 1 ELSE removed
   /\ UNCHANGED <<l, ever>>
 
 Ret ==
@@ -106,8 +106,12 @@ Ret ==
   /\ \A o \in pend : o.id # Ev.id
   /\ l' = l + 1 /\ UNCHANGED <<st, pend, ever, removed>>
 
+(* Mode "count": no early stop; every linearization of every sub-history is explored and the number of entries  *)
+(* actually removed by Delete / DeleteAll in it is printed when the sub-history ends (the following reset line), so  *)
+(* that the orchestrator can compare cache_delete of a whole history with the sums that are possible (C18).          *)
 Reset ==
   /\ l <= Len(Trace) /\ Ev.ev = "reset"
+  /\ (Mode = "count" /\ pend = {}) => PrintT(<<"REMOVED", l, removed>>)
   /\ l' = l + 1 /\ st' = Absent /\ pend' = {} /\ ever' = {} /\ removed' = 0
 
 Next == Call \/ Lin \/ Ret \/ Reset
